@@ -170,7 +170,8 @@ func checkC06(c *Ctx, r *Report) {
 							for _, r2i := range *fa.Referrers() {
 								if st, ok := r2i.(*ssa.Store); ok {
 									if fl.Name() == "Type" {
-										k, isC := constInt(st.Val)
+										enterScan(f) // (in a helper shared by AddConn and RemoveConn: this caller's argument)
+										k, isC := constInt(strip(st.Val))
 										okT = isC && k == want
 									}
 									if fl.Name() == "PeerID" {
@@ -312,7 +313,21 @@ func checkC06(c *Ctx, r *Report) {
 				if rk != "(*"+swarmP+".Conn).doClose" && rk != "(*"+swarmP+".Conn).start" {
 					continue
 				}
-				if len(findInstrsIn(g, func(in ssa.Instruction) bool { _, d := in.(*ssa.Defer); return d && isRefsCall(in, "Done") })) > 0 {
+				// `defer refs.Done()`, or a deferred closure every path of which calls refs.Done()
+				releases := false
+				for _, in := range findInstrsIn(g, func(in ssa.Instruction) bool { _, d := in.(*ssa.Defer); return d }) {
+					if isRefsCall(in, "Done") {
+						releases = true
+						continue
+					}
+					if h := in.(*ssa.Defer).Call.StaticCallee(); h != nil && h.Blocks != nil && h.Parent() == g {
+						if w, _ := (&Cut{Fn: h, Target: func(x ssa.Instruction) bool { _, isRet := x.(*ssa.Return); return isRet },
+							Sep: func(x ssa.Instruction) bool { _, isDefer := x.(*ssa.Defer); return !isDefer && isRefsCall(x, "Done") }}).Run(c); w == "" {
+							releases = true
+						}
+					}
+				}
+				if releases {
 					parties++
 				}
 			}
@@ -375,10 +390,23 @@ func checkC06(c *Ctx, r *Report) {
 				return false
 			}
 			accepts := len(findInstrsIn(body, func(x ssa.Instruction) bool { return calleeNameIs(x, "AcceptStream") })) > 0
-			closes := len(findInstrsIn(body, func(x ssa.Instruction) bool {
-				_, d := x.(*ssa.Defer)
-				return d && isCallTo(x, "(*"+swarmP+".Conn).Close")
-			})) > 0
+			// the loop's exit closes the connection: `defer c.Close()`, or a deferred closure every path of which does
+			closes := false
+			isClose := func(x ssa.Instruction) bool {
+				return isCallTo(x, "(*"+swarmP+".Conn).Close", "(*"+swarmP+".Conn).CloseWithError")
+			}
+			for _, x := range findInstrsIn(body, func(x ssa.Instruction) bool { _, d := x.(*ssa.Defer); return d }) {
+				if isClose(x) {
+					closes = true
+					continue
+				}
+				if h := x.(*ssa.Defer).Call.StaticCallee(); h != nil && h.Blocks != nil && h.Parent() == body {
+					if w, _ := (&Cut{Fn: h, Target: func(y ssa.Instruction) bool { _, isRet := y.(*ssa.Return); return isRet },
+						Sep: func(y ssa.Instruction) bool { _, isDefer := y.(*ssa.Defer); return !isDefer && isClose(y) }}).Run(c); w == "" {
+						closes = true
+					}
+				}
+			}
 			return accepts && closes
 		}
 		gos := findInstrs(f, isLoopGo)
@@ -406,6 +434,13 @@ func checkC06(c *Ctx, r *Report) {
 			ok = w == ""
 		}
 		r5.Check(ok, "doClose: connection removed from the swarm before Disconnected is dispatched", f.Pos(), 2, "", "", "")
+		// ... and the dispatch happens however the transport's Close turned out: every path of doClose starts the
+		// goroutine that reports the removal (and releases the reference Swarm.Close waits on)
+		if len(goRem) == 1 {
+			w, n := (&Cut{Fn: f, Target: func(in ssa.Instruction) bool { _, isRet := in.(*ssa.Return); return isRet }, Sep: inSet(goRem)}).Run(c)
+			r5.Check(w == "", "doClose: every path dispatches the removal to the events emitter", f.Pos(), n+1, "",
+				"a connection closed on that path never gets Disconnected, its last published state stays Connected, and Swarm.Close waits for a reference that is never released", w)
+		}
 	}
 	if f := r5.need(sw + "close"); f != nil {
 		wait := findInstrs(f, func(in ssa.Instruction) bool {
@@ -456,7 +491,12 @@ func checkC06(c *Ctx, r *Report) {
 	}
 
 	// ---- R6 ---------------------------------------------------------------
-	r6 := r.Rule("C06-R6", "E1", 3, "notifyPeer emits only on newState != oldState or (add event and NotConnected); records the new state first")
+	r6 := r.Rule("C06-R6", "E1", 3, "notifyPeer emits only on newState != oldState or (add event and NotConnected); records the new state first; the state it publishes is the truth: an open direct connection always decides Connected")
+	// the state notifyPeer publishes comes from connectednessUnlocked: with a direct connection open the answer is
+	// Connected whatever else is listed, with only limited ones open it is not NotConnected
+	if f := r6.need("(*" + swarmP + ".Swarm).connectednessUnlocked"); f != nil {
+		connectednessRules(c, r6, f, "bd")
+	}
 	if f := r6.need(em("notifyPeer")); f != nil {
 		emits := findInstrs(f, callPred("(core/event.Emitter).Emit"))
 		notConn := constIntObj(c, "core/network", "NotConnected")
